@@ -64,7 +64,7 @@ def _case(draw, tier, names):
     return c
 
 
-CONSUMERS = ["len-first", "header-first", "look-first", "contains-first", "getitem-first", "deepcopy", "copy", "pickle", "abandon-first"]
+CONSUMERS = ["len-first", "header-first", "look-first", "contains-first", "getitem-first", "getitem-first", "deepcopy", "copy", "pickle", "abandon-first"]
 
 
 class _Differs(Exception):
